@@ -27,6 +27,11 @@ __all__ = [
 
 alltasks = []
 
+def _code_key(code):
+    '''What identifies a lambda: byte-code, constants (recursively) and names'''
+    consts = tuple(_code_key(c) if hasattr(c, 'co_code') else c for c in code.co_consts)
+    return (code.co_code, consts, code.co_names)
+
 class _getitem:
     __slots__ = ('slice',)
     def __init__(self, slice):
@@ -440,7 +445,7 @@ class Tasklet(TaskletMixin):
         M.update(b'Tasklet')
         hash_update(M, [
                 ('base', self.base),
-                ('f', self.f if getattr(self.f, '__name__', '') != '<lambda>' else ('<lambda>', self.f.__code__.co_code))
+                ('f', self.f if getattr(self.f, '__name__', '') != '<lambda>' else ('<lambda>', _code_key(self.f.__code__)))
             ])
         return M.hexdigest().encode('utf-8')
 
